@@ -18,13 +18,16 @@ def exp2Accept (E rep : Int) (want : Nat) (v : Int) : Bool :=
 
 /-- known-defect classes (functions of format and input only) -/
 def exp2Class (f : Exp2.Fmt) (rep : Int) (want : Nat) : String :=
-  if !f.signed && f.bits ≥ 32 && f.exp < 0 then "C20.exp2_unsigned_rep_sign_compare"
-  else if f.exp > 0 && !(f.rep.inRange (rep * 2^f.exp.toNat)) then "C20.exp2_positive_exponent_floor_wraps"
-  else
-    -- what the code did with the coefficients of the header as first verified (derived inside Lean from the literals)
-    match Exp2.exp2With (Exp2.derivedCoeffs f.bits) f rep with
-    | .ok v => if exp2Accept f.exp rep want v then "" else "C20.exp2_error_exceeds_1lsb"
-    | _ => ""
+  -- (the classes `exp2_unsigned_rep_sign_compare` and `exp2_positive_exponent_floor_wraps` are repaired: a recurrence is a violation)
+  -- what the code did with the coefficients of the header as first verified (derived inside Lean from the literals)
+  match Exp2.exp2With (Exp2.derivedCoeffs f.bits) f rep with
+  | .ok v =>
+    if exp2Accept f.exp rep want v then ""
+    else if f.bits ≤ 16 then "C20.exp2_error_exceeds_1lsb"
+    -- 32-bit unsigned reps reach the polynomial only since the sign-compare repair; signed 32-bit reps have no known deviation
+    else if f.bits == 32 && !f.signed then "C20.exp2_error_exceeds_1lsb_unsigned32"
+    else ""
+  | _ => ""
 
 def checkC20 (toks : List String) (res : String) : Option Verdict :=
   match toks with
